@@ -40,7 +40,7 @@ u64 k_sv_sizeof(); u64 k_sv_size(void const*); u64 k_sv_data_off(void*); void k_
 SET_PROTOS(ss)
 SET_PROTOS(fs)
 u64 k_fs_insert_hint_r(void*, u64, PV); u64 k_fs_erase_cit(void*, u64); u64 k_fs_erase_if(void*, PV); void k_fs_extract(void*, void*); void k_fs_replace(void*, void*);
-void k_fs_ctor_container(void*, void const*); void k_fs_ctor_sorted(void*, void const*);
+void k_fs_ctor_container(void*, void const*); void k_fs_make_sorted(void*, PV const*, u64); void k_fs_ctor_sorted(void*, void const*);
 }
 static inline PV nd_pv() { return (PV)lg_nd_payload(); }
 static inline u64 nd_idx(unsigned maxv) { u64 i = vf_nd_u8(); vf_assume(i <= maxv); return i; }
@@ -104,7 +104,7 @@ static inline void src_fin(void* blk, PV const* vals, unsigned cnt, unsigned r)
         for (unsigned i = 0; i < m.n; i++) vf_assert(k_##P##_contains(p, m.k[i]), "every key of the model is in the set"); \
         lg_quiet();                                                                                                      \
     }                                                                                                                    \
-    static inline void* P##_make(M& m, unsigned n, unsigned r)                                                           \
+    static inline void* P##_make_ins(M& m, unsigned n, unsigned r)                                                       \
     {                                                                                                                    \
         void* p = P##_raw(r);                                                                                            \
         k_##P##_new(p);                                                                                                  \
@@ -121,6 +121,20 @@ static inline void src_fin(void* blk, PV const* vals, unsigned cnt, unsigned r)
     static inline void P##_fin(void* p, unsigned r) { k_##P##_dtor(p); lg_expect(r, 0, 0, ESZ, TAG); lg_quiet(); }
 SET_HELPERS(ss)
 SET_HELPERS(fs)
+// pre-states. static_set: n insertions of pairwise distinct symbolic keys (the only way in). flat_set: adopted from a
+// container with n increasing symbolic keys (flat_set(sorted_unique, container&&)), so the slot of every key is known.
+static inline void* ss_make(M& m, unsigned n, unsigned r) { return ss_make_ins(m, n, r); }
+static inline void* fs_make(M& m, unsigned n, unsigned r)
+{
+    void* p = fs_raw(r);
+    PV* vals = (PV*)vf_alloc(u64(n ? n : 1) * sizeof(PV));
+    m.n = 0;
+    for (unsigned i = 0; i < n; i++) { PV v = nd_pv(); if (i) vf_assume(lt(vals[i - 1], v)); vals[i] = v; m.k[m.n++] = v; }
+    k_fs_make_sorted(p, vals, n);
+    vf_assert(vf_led.nctor > 0 || n == 0, "ledger is shared between the TUs");
+    fs_same(p, m, r);
+    return p;
+}
 
 // ---- the operations both sets have
 #define SET_QUERIES(P, KFR, FULLOK)                                                                                             \
